@@ -500,6 +500,12 @@ def run_c04(ctx):
                 vals.append(('grid', (P, ln, extreme(rng, 16), extreme(rng, 16), nsnr, off, rbytes(rng, nd))))
     for _ in range(ctx.scale(6000, 60000)):
         vals.append(('rand', rand_data(rng)))
+    # payloads around and beyond 64 KiB (no length field can describe them; the message is still legal)
+    for nd in (65519, 65525, 65529, 65530, 65535, 65536, 70001, 131100):
+        nsnr = (1, 2) if nd % 2 else None
+        off = 3 if nd % 3 == 0 else None
+        ln = data_total(True, nsnr, off, nd)
+        vals.append(('big', (bool(nd & 1), ln if ln <= 65535 else None, 7, 8, nsnr, off, rbytes(rng, nd))))
     enc = ['ENC\t%s\t' % data_text(*v) for (_, v) in vals]
     r1 = run_compare(ctx, rep, enc, [t for (t, _) in vals], lambda c, r: r)
     dec, exp = [], []
